@@ -116,7 +116,9 @@ Inductive rx :=
 | RxLit (l : str)                          (* re.escape(l) *)
 | RxClassMin (lo hi : N) (n : nat)         (* [lo-hi]{n,}       e.g. [A-Z]{2,} *)
 | RxRep (c : N) (n : nat)                  (* re.escape(c){n}   e.g. \.{3} *)
-| RxGroup (pre : str) (lo hi : N) (suf : str).   (* re.escape(pre) ([lo-hi]+) re.escape(suf) *)
+| RxGroup (pre : str) (lo hi : N) (suf : str)    (* re.escape(pre) ([lo-hi]+) re.escape(suf) *)
+| RxNotAfter (lo hi : N) (l : str)         (* (?<![lo-hi]) re.escape(l): looks at the character BEFORE pos *)
+| RxBol (l : str).                         (* ^ re.escape(l): only at position 0 of the whole string *)
 
 Definition in_cls (lo hi c : N) : bool := (lo <=? c) && (c <=? hi).
 
@@ -136,9 +138,10 @@ Fixpoint grp_len (lo hi : N) (suf : str) (s : str) : option nat :=
 Fixpoint count_prefix (f : N -> bool) (s : str) : nat :=
   match s with c :: r => if f c then S (count_prefix f r) else O | [] => O end.
 
-(** [rx.match(s, pos)] on the suffix [u = s[pos:]]: length of the match and
-    the text of group 1 if the pattern has one *)
-Definition rx_match (r : rx) (u : str) : option (nat * option str) :=
+(** [rx.match(s, pos)] on the suffix [u = s[pos:]] and the character [prev]
+    in front of [pos] ([None] at position 0; patterns may look behind): length
+    of the match and the text of group 1 if the pattern has one *)
+Definition rx_match (r : rx) (prev : option N) (u : str) : option (nat * option str) :=
   match r with
   | RxLit l => if startswith u l then Some (List.length l, None) else None
   | RxClassMin lo hi n =>
@@ -154,7 +157,19 @@ Definition rx_match (r : rx) (u : str) : option (nat * option str) :=
         | None => None
         end
       else None
+  | RxNotAfter lo hi l =>
+      if match prev with Some c => in_cls lo hi c | None => false end then None
+      else if startswith u l then Some (List.length l, None) else None
+  | RxBol l =>
+      match prev with
+      | None => if startswith u l then Some (List.length l, None) else None
+      | Some _ => None
+      end
   end.
+
+(** the character in front of position [pos] *)
+Definition prev_char (s : str) (pos : nat) : option N :=
+  match pos with O => None | S k => nth_error s k end.
 
 (** replacement of a regex rule: a template for [m.expand] or a callable on
     the match object *)
@@ -192,11 +207,11 @@ Record config := {
   non_ascii_only : bool }.
 
 (** [_apply_rule_regex]: the first pair whose pattern matches *)
-Fixpoint apply_regexes (l : list (rx * rrepl)) (u : str) : cres :=
+Fixpoint apply_regexes (l : list (rx * rrepl)) (prev : option N) (u : str) : cres :=
   match l with
   | [] => CNone
   | (r, repl) :: l' =>
-      match rx_match r u with
+      match rx_match r prev u with
       | Some (n, g1) =>
           let whole := firstn n u in
           match repl with
@@ -206,7 +221,7 @@ Fixpoint apply_regexes (l : list (rx * rrepl)) (u : str) : cres :=
                         | None => CRaise ReError
                         end
           end
-      | None => apply_regexes l' u
+      | None => apply_regexes l' prev u
       end
   end.
 
@@ -214,7 +229,7 @@ Fixpoint apply_regexes (l : list (rx * rrepl)) (u : str) : cres :=
 Definition apply_rule (r : rule) (s : str) (pos : nat) : cres :=
   match rbody r with
   | RDict d => match d (nth pos s 0) with Some repl => CMatch 1%nat repl | None => CNone end
-  | RRegex l => apply_regexes l (skipn pos s)
+  | RRegex l => apply_regexes l (prev_char s pos) (skipn pos s)
   | RCallable f => f s pos
   end.
 
